@@ -440,10 +440,10 @@ fn validate(ctx: &Context<impl Channel>) -> Result<(), Error> {
     if p_out.is_empty() {
         return Err(Error::MissingOutputParties);
     }
-    // input_processing() looks up the random share of an `Input` instruction at the position of
-    // that instruction among the first `num_inputs` shares.
+    // input_processing() looks up the random share and the label of an `Input` instruction at the
+    // position of that instruction, so the inputs must be exactly the first `num_inputs` instructions.
     for (w, inst) in circ.insts.iter().enumerate() {
-        if matches!(inst.op, Op::Input(_)) && w >= num_inputs {
+        if matches!(inst.op, Op::Input(_)) != (w < num_inputs) {
             return Err(CircuitError::InvalidInput(w, *inst).into());
         }
     }
